@@ -89,7 +89,7 @@ reg("C08", "rules_base", "check_C08", "other",
 
 reg("C13", "rules_funcs", "check_C13", "other",
     "instances = sqrt / hypot / cbrt reference forms, exact-zero division analysis, powi special-case table and call structure, panic sites reachable from powi and the Pow impls",
-    "R31 (S*): sqrt's guard table (negative -> NaN, 0 -> 0) and Karp-Markstein correction, hypot = sqrt(x^2+y^2), cbrt = zero guard + k>=1 Newton steps, compared semantically at operator level. R32 (N): with a zero argument no division by a definitely-zero value is reached. R26 (S): powi dispatches 0/1/-1 then square-and-multiply with recip for negative n and never takes i32::abs. R31e / R26e (N, exact rationals, hand derivations DESIGN B.3/B.4 over the forms R31/R26 established): sqrt <= 32u^2, hypot <= 48u^2, cbrt <= 16u^2, powi <= (6|n|+16)u^2 for 2 <= |n| <= 2^31.",
+    "R31 (S*): sqrt's guard table (negative -> NaN, 0 -> 0) and Karp-Markstein correction, hypot = sqrt(x^2+y^2), cbrt = zero guard + k>=1 Newton steps, compared semantically at operator level. R32 (N): with a zero argument no division by a definitely-zero value is reached. R26 (S): powi dispatches 0/1/-1 then square-and-multiply (the one loop between entry and result, in powi's own body or in a looping private helper read in place) with recip for negative n and never takes i32::abs. R31e / R26e (N, exact rationals, hand derivations DESIGN B.3/B.4 over the forms R31/R26 established): sqrt <= 32u^2, hypot <= 48u^2, cbrt <= 16u^2, powi <= (6|n|+16)u^2 for 2 <= |n| <= 2^31.",
     COMMON_ASSUME + ["R31e/R26e lemmas: libm::sqrt and the f64 operations correctly rounded, libm::cbrt within 2^-30, operator bounds of JMP 2017 for conforming code (C02-C04), long division within 16u^2 (C05, rule R10e), no under/overflow on the stated ranges"])
 reg("C14", "rules_funcs", "check_C14", "other",
     "instances = 161 table entries in 4 families (R33), 3 series truncation bounds (R34), range switches and reference forms of exp / exp_half / exp_m1 / exp2 / powf (R35)",
@@ -117,7 +117,7 @@ reg("C18", "rules_funcs", "check_C18", "other",
 
 reg("C09", "rules_conv", "check_C09", "other",
     "instances = From/TryFrom impls for the ten integer types (value and reference forms), float projections, 45 num_traits routes",
-    "R21 (S): small-int From is {n as f64, 0.0}; TryFrom truncates, range-checks against the exact f64 images of T::MIN/T::MAX, then casts the high word. R22 (S/N): wide-int From builds Fast2Sum(n as f64, remainder) with the three remainder arms; TryFrom range-checks against {MIN,0}..={MAX as f64,-1} (= MAX exactly) and recombines in integer arithmetic by the three arms; value/reference twins agree. R23 (S): FromPrimitive/ToPrimitive routes delegate to exactly these impls (isize/usize by size_of), NumCast's f64 fast path is limited to 2^53. Totality is decided by the panic-site analysis (R24). Exactness of the 128-bit split for every value is not decided.",
+    "R21 (S): small-int From is {n as f64, 0.0}; TryFrom truncates, range-checks against the exact f64 images of T::MIN/T::MAX, then casts the high word. R22 (S/N): wide-int From builds Fast2Sum(n as f64, remainder) with the three remainder arms; TryFrom range-checks against {MIN,0}..={MAX as f64,-1} (= MAX exactly) and recombines in integer arithmetic by the three arms; value/reference twins agree. R23 (S): FromPrimitive/ToPrimitive routes delegate to exactly these impls (isize/usize by size_of, or - read semantically - the fixed-width route of this target's width applied to the losslessly widened argument), NumCast's f64 fast path is limited to 2^53. Totality is decided by the panic-site analysis (R24). Exactness of the 128-bit split for every value is not decided.",
     COMMON_ASSUME + ["run-time integer/float arithmetic exactness per value is not decided"])
 
 reg("C20", "rules_fmt", "check_C20", "other",
